@@ -138,10 +138,14 @@ def gen_coqproject():
 
 def coq_make(targets, keep_going=True, timeout=3000):
     """(incremental) full .vo build of the given targets; returns (ok, log)"""
-    gen_coqproject()
-    os.makedirs(os.path.join(OCAML, "extracted"), exist_ok=True)
-    cmd = ["make", "-j%d" % NPROC] + (["-k"] if keep_going else []) + list(targets)
-    rc, out, err = run(cmd, cwd=COQ, timeout=timeout)
+    import fcntl
+    os.makedirs(BUILD, exist_ok=True)
+    with open(os.path.join(BUILD, "coq.lock"), "w") as lk:
+        fcntl.flock(lk, fcntl.LOCK_EX)      # one Coq build at a time (shared .vo files)
+        gen_coqproject()
+        os.makedirs(os.path.join(OCAML, "extracted"), exist_ok=True)
+        cmd = ["make", "-j%d" % NPROC] + (["-k"] if keep_going else []) + list(targets)
+        rc, out, err = run(cmd, cwd=COQ, timeout=timeout)
     return rc == 0, (out + err)[-6000:]
 
 
